@@ -60,7 +60,7 @@ fn pools() -> &'static Vec<rayon::ThreadPool> {
     P.get_or_init(|| THREADS.iter().map(|&t| rayon::ThreadPoolBuilder::new().num_threads(t).build().expect("thread pool")).collect())
 }
 
-fn par_collect<T: Uni + rayon::iter::FromParallelIterator<f64> + for<'a> rayon::iter::FromParallelIterator<&'a f64>>(c: &Par) -> T {
+fn par_collect<T: Uni + Send + rayon::iter::FromParallelIterator<f64> + for<'a> rayon::iter::FromParallelIterator<&'a f64>>(c: &Par) -> T {
     let n = c.xs.len().max(1);
     let pool = &pools()[THREADS.iter().position(|&t| t == c.threads).unwrap_or(0)];
     let jit = c.jitter;
@@ -120,7 +120,7 @@ fn par_collect<T: Uni + rayon::iter::FromParallelIterator<f64> + for<'a> rayon::
     })
 }
 
-fn one<T: Uni + rayon::iter::FromParallelIterator<f64> + for<'a> rayon::iter::FromParallelIterator<&'a f64>>(c: &Par, ex: Option<&Exact>, o: &mut Obs) -> TestResult {
+fn one<T: Uni + Send + rayon::iter::FromParallelIterator<f64> + for<'a> rayon::iter::FromParallelIterator<&'a f64>>(c: &Par, ex: Option<&Exact>, o: &mut Obs) -> TestResult {
     let seq: T = feed(&c.xs);
     let mut prev: Option<Snapshot> = None;
     for rep in 0..c.reps.max(1) {
@@ -233,7 +233,7 @@ pub fn run(cx: &Ctx) {
     let mut grid = Vec::new();
     let mut r = Sm(cx.seed ^ 0xC19);
     for &n in &lens {
-        let pl = gen::Placement { shape: r.below(gen::SHAPES as u64) as usize, order: 0, ls: r.range(-10.0, 10.0), lk: Some(r.range(0.0, 9.0)), neg: false };
+        let pl = gen::Placement { shape: r.below(gen::SHAPES as u64) as usize, order: 0, ls: if n % 2 == 0 { r.range(-28.0, -16.0) } else { r.range(-10.0, 28.0) }, lk: Some(r.range(0.0, 9.0)), neg: false };
         let xs = gen::bulk_dataset(n, r.next(), &pl);
         for &t in &THREADS {
             for split in 0..8u8 {
